@@ -2,10 +2,15 @@ package main
 
 import (
 	"bytes"
+	"context"
 	"crypto/sha256"
 	"fmt"
+	"github.com/smallnest/rpcx/client"
+	"github.com/smallnest/rpcx/server"
+	"net"
 	"strings"
 	"sync"
+	"time"
 	"unsafe"
 
 	"github.com/smallnest/rpcx/protocol"
@@ -259,8 +264,75 @@ func runC20(r *common.Rand, tier string, o *common.Out, replay string) {
 	}
 	o.ImplOnly("held", "held-results|16 workers", true)
 	o.Count("held-results-run")
-	// (4) pooled argument / reply objects of the server under forced pool-reuse schedules
+	// (4) bytes handed to a caller of the client (raw-bytes replies, server messages) held across later calls
+	for i := 0; i < 6; i++ {
+		id := fmt.Sprintf("hold%d", i)
+		abstract := fmt.Sprintf("client-held|%d", i)
+		o.Begin(id, abstract)
+		for _, f := range clientHeld(i) {
+			p := strings.SplitN(f, "|", 2)
+			o.Fail(id, p[0], p[1], abstract)
+		}
+		o.ImplOnly(id, abstract, true)
+		o.Count("client-held-replies")
+	}
+	// (5) pooled argument / reply objects of the server under forced pool-reuse schedules
 	runSrv("C20", r, tier, o, "")
+}
+
+// RawEcho answers raw bytes with raw bytes
+type RawEcho struct{}
+
+func (t *RawEcho) Fill(ctx context.Context, a *[]byte, r *[]byte) error {
+	out := make([]byte, len(*a))
+	for i := range out {
+		out[i] = (*a)[0]
+	}
+	*r = out
+	return nil
+}
+
+// a raw-bytes reply handed to a caller stays what it was while later replies of the same and of smaller sizes arrive
+func clientHeld(variant int) []string {
+	var fails []string
+	srv := server.NewServer()
+	srv.RegisterName("RawEcho", &RawEcho{}, "")
+	ln := newPipeListener()
+	go srv.ServeListener("vpipe", ln)
+	<-srv.Started
+	defer func() { srv.Close(); ln.Close() }()
+	client.ConnFactories["vhold"] = func(c *client.Client, network, address string) (net.Conn, error) { return ln.dial() }
+	opt := client.DefaultOption
+	opt.SerializeType = protocol.SerializeNone
+	opt.Heartbeat = false
+	if variant%2 == 1 {
+		opt.CompressType = protocol.Gzip
+	}
+	cl := client.NewClient(opt)
+	if err := cl.Connect("vhold", "x"); err != nil {
+		return []string{"rig|" + err.Error()}
+	}
+	defer cl.Close()
+	sizes := [][]int{{64, 64, 64}, {32, 24, 16}, {2000, 1500, 100}, {1, 1, 1}, {300, 300, 20}, {1030, 1030, 1030}}[variant%6]
+	var held [][]byte
+	for k, n := range sizes {
+		arg := bytes.Repeat([]byte{byte('A' + k)}, n)
+		var reply []byte
+		ctx, cancel := context.WithTimeout(context.Background(), 3*time.Second)
+		err := cl.Call(ctx, "RawEcho", "Fill", &arg, &reply)
+		cancel()
+		if err != nil {
+			return append(fails, fmt.Sprintf("call-failed|raw call %d: %v", k, err))
+		}
+		held = append(held, reply)
+	}
+	for k, rep := range held {
+		want := bytes.Repeat([]byte{byte('A' + k)}, sizes[k])
+		if !bytes.Equal(rep, want) {
+			fails = append(fails, fmt.Sprintf("held-reply-modified|the reply of call %d (%d bytes of %q), still held by its caller, was changed by later replies on the connection", k, sizes[k], string(rune('A'+k))))
+		}
+	}
+	return fails
 }
 
 func addInt(x interface{}, n int) int {
